@@ -21,7 +21,10 @@ import time
 import types
 
 TOOL = 3
-INTERESTING = {"LOAD_ATTR", "STORE_ATTR", "DELETE_ATTR", "BINARY_SUBSCR", "STORE_SUBSCR", "DELETE_SUBSCR", "CALL", "CALL_FUNCTION_EX", "CONTAINS_OP", "LOAD_METHOD"}
+# shared-state accesses, plus the instructions at which CPython 3.12 itself hands over the GIL (function entry, loop
+# back-edges, calls)
+INTERESTING = {"LOAD_ATTR", "STORE_ATTR", "DELETE_ATTR", "BINARY_SUBSCR", "STORE_SUBSCR", "DELETE_SUBSCR", "CALL", "CALL_FUNCTION_EX", "CONTAINS_OP",
+               "LOAD_METHOD", "JUMP_BACKWARD", "FOR_ITER", "RESUME", "COMPARE_OP"}
 
 _current: "Scheduler | None" = None
 
